@@ -101,6 +101,25 @@ def build_block(src, selector, rx, opts, sections, emitter):
     raw = src.text[bstart:bend]
     first_line = line_of(src.text, bstart)
     sha = hashlib.sha256(raw.encode()).hexdigest()
+    if opts.get("stub"):
+        # `stub=UNIT`: the statement range is located mechanically (same anchors as in unit UNIT, where the block is
+        # verified), but only its wrapper's contract is emitted here -- an ASSUMED contract (external_body), so that a
+        # function of this unit can be composed over it with //@callblock.  Listed as trusted.
+        sig = sections.get("sig")
+        spec = sections.get("spec") or ""
+        if not sig:
+            raise X.ExtractError("block without //@sig")
+        gen_start = len(emitter.lines)
+        emitter.emit_mapped([("#[verifier::external_body]\n", None), (sig.rstrip("\n") + "\n", None), (spec.rstrip("\n") + "\n", None),
+                             ("{ unimplemented!() }", None)])
+        name = opts.get("name", "block")
+        emitter.items.append({
+            "kind": "fn", "selector": f"{selector}#{name}", "name": name, "file": src.rel,
+            "repo_lines": [first_line, first_line + raw.count("\n")], "gen_lines": [gen_start + 1, len(emitter.lines)],
+            "sha256": sha, "rules": [f"block-stub(verified in unit {opts['stub']})"], "has_requires": bool(re.search(r"\brequires\b", spec)),
+            "contract": bool(spec), "has_body": False, "block": True, "stub": True, "repo_span": [bstart, bend],
+        })
+        return
     raw_cb, cb_applied = X.apply_callblocks(src, selector, bstart, bend, raw, sections, emitter)
     text = X.strip_attrs_and_docs(raw_cb)
     applied = list(cb_applied)
